@@ -1340,7 +1340,7 @@ func TestVerifC19(t *testing.T) {
 	}
 	{
 		// self-attested credentials as an API client posts them: credentialSubject of every shape x members present/absent x proof present/absent/empty
-		for _, subj := range []string{`-`, `null`, `"x"`, `5`, `true`, `[]`, `{}`, `{"id":"did:web:holder.example.com"}`, `{"id":null}`, `{"id":5}`, `{"name":"y"}`, `[null]`, `["x"]`, `[{}]`, `[{"id":"did:nuts:abc"}]`, `[{},{}]`, `[{"name":"y"},{"id":"did:web:holder.example.com"}]`, `[[]]`, `[[{"id":"x"}]]`} {
+		for _, subj := range []string{`-`, `null`, `"x"`, `5`, `true`, `[]`, `{}`, `{"id":"did:web:holder.example.com"}`, `{"id":null}`, `{"id":5}`, `{"name":"y"}`, `[null]`, `["x"]`, `[{}]`, `[{"id":"did:nuts:abc"}]`, `[{},{}]`, `[{"name":"y"},{"id":"did:web:holder.example.com"}]`, `[{"id":"did:web:holder.example.com"},{"id":"did:nuts:abc"}]`, `[{"id":"did:nuts:abc"},{"id":"did:web:holder.example.com"}]`, `[{"id":"did:web:a"},{"id":"not a did"},{"id":""},{"id":"did:jwk:x"}]`, `[[]]`, `[[{"id":"x"}]]`} {
 			for _, prf := range []string{`-`, `null`, `[]`, `{}`, `{"type":"JsonWebSignature2020","jws":"e30..AAAA"}`, `[{"type":"x"},{"type":"y"}]`} {
 				for _, members := range []int{0, 1, 2, 4, 7} {
 					for _, iss := range []string{`"did:web:example.com"`, `"did:nuts:issuer"`, `"https://example.com/issuer"`, `""`} {
